@@ -12,40 +12,40 @@ namespace JediModel.ArgBind
 def kwIt (kws : List (Name × Arg)) : It := kws.map fun (k, a) => (some k, a)
 
 /-- all keyword arguments pushed through the body of the `while` loop -/
-def drain (all : List Param) (s : St) : List (Name × Arg) → St
+def drain (sn : Bool) (all : List Param) (s : St) : List (Name × Arg) → St
   | [] => s
-  | (k, a) :: kws => drain all (keyStep all s k a) kws
+  | (k, a) :: kws => drain sn all (keyStep sn all s k a) kws
 
 theorem callArgs_nil (kws : List (Name × Arg)) : callArgs [] kws = kwIt kws := rfl
 
 theorem callArgs_cons (a : Arg) (pos : List Arg) (kws : List (Name × Arg)) :
     callArgs (a :: pos) kws = (none, a) :: callArgs pos kws := rfl
 
-theorem whileKeys_keys (all : List Param) (kws : List (Name × Arg)) :
+theorem whileKeys_keys (sn : Bool) (all : List Param) (kws : List (Name × Arg)) :
     ∀ (k : Name) (a : Arg) (s : St),
-      whileKeys all (some (some k, a)) (kwIt kws) s = (none, [], drain all s ((k, a) :: kws)) := by
+      whileKeys sn all (some (some k, a)) (kwIt kws) s = (none, [], drain sn all s ((k, a) :: kws)) := by
   induction kws with
   | nil => intro k a s; simp [whileKeys, kwIt, drain]
   | cons x kws ih =>
     intro k a s
     obtain ⟨k', a'⟩ := x
-    have := ih k' a' (keyStep all s k a)
+    have := ih k' a' (keyStep sn all s k a)
     simp only [kwIt, List.map_cons] at this ⊢
     simp only [whileKeys, this, drain]
 
 /-- `next` + the `while` loop on an iterator that holds keyword arguments only -/
-theorem pop_while_keys (all : List Param) (kws : List (Name × Arg)) (s : St) :
-    whileKeys all (pop (kwIt kws)).1 (pop (kwIt kws)).2 s = (none, [], drain all s kws) := by
+theorem pop_while_keys (sn : Bool) (all : List Param) (kws : List (Name × Arg)) (s : St) :
+    whileKeys sn all (pop (kwIt kws)).1 (pop (kwIt kws)).2 s = (none, [], drain sn all s kws) := by
   cases kws with
   | nil => simp [kwIt, pop, whileKeys, drain]
   | cons x kws =>
     obtain ⟨k, a⟩ := x
-    have := whileKeys_keys all kws k a s
+    have := whileKeys_keys sn all kws k a s
     simpa [kwIt, pop] using this
 
 theorem stepJ_keys (cfg : Cfg) (all : List Param) (p : Param) (kws : List (Name × Arg)) (s : St) :
-    stepJ cfg all p (kwIt kws) s = bodyJ cfg p none [] (drain all s kws) := by
-  have h := pop_while_keys all kws s
+    stepJ cfg all p (kwIt kws) s = bodyJ cfg p none [] (drain cfg.starNamesInParamDict all s kws) := by
+  have h := pop_while_keys cfg.starNamesInParamDict all kws s
   unfold stepJ
   simp only [h]
 
@@ -59,24 +59,24 @@ theorem stepJ_positional (cfg : Cfg) (all : List Param) (p : Param) (a : Arg) (i
 
 /-! ### what `drain` does to the locals -/
 
-theorem keyStep_result (all : List Param) (s : St) (k : Name) (a : Arg) :
-    (keyStep all s k a).result = s.result := by
+theorem keyStep_result (sn : Bool) (all : List Param) (s : St) (k : Name) (a : Arg) :
+    (keyStep sn all s k a).result = s.result := by
   unfold keyStep; split <;> (try split) <;> rfl
 
-theorem drain_result (all : List Param) (kws : List (Name × Arg)) :
-    ∀ s : St, (drain all s kws).result = s.result := by
+theorem drain_result (sn : Bool) (all : List Param) (kws : List (Name × Arg)) :
+    ∀ s : St, (drain sn all s kws).result = s.result := by
   induction kws with
   | nil => intro s; rfl
   | cons x kws ih => intro s; obtain ⟨k, a⟩ := x; simp [drain, ih, keyStep_result]
 
 /-- `keys_used` after all keywords went through the loop: an earlier binding wins ("multiple
 values"); otherwise a keyword that names a parameter binds it -/
-theorem drain_lookup (all : List Param) (kws : List (Name × Arg)) :
+theorem drain_lookup (sn : Bool) (all : List Param) (kws : List (Name × Arg)) :
     ∀ (s : St) (n : Name),
-      (drain all s kws).keysUsed.lookup n =
+      (drain sn all s kws).keysUsed.lookup n =
         match s.keysUsed.lookup n with
         | some b => some b
-        | none => if inParamDict all n then (kws.lookup n).map Bound.arg else none := by
+        | none => if inParamDict sn all n then (kws.lookup n).map Bound.arg else none := by
   induction kws with
   | nil => intro s n; cases h : s.keysUsed.lookup n <;> simp [drain, h]
   | cons x kws ih =>
@@ -85,7 +85,7 @@ theorem drain_lookup (all : List Param) (kws : List (Name × Arg)) :
     simp only [drain]
     rw [ih]
     unfold keyStep
-    by_cases hk : inParamDict all k = true
+    by_cases hk : inParamDict sn all k = true
     · simp only [hk, Bool.not_true, Bool.false_eq_true, if_false]
       cases hku : s.keysUsed.lookup k with
       | some b =>
@@ -106,19 +106,19 @@ theorem drain_lookup (all : List Param) (kws : List (Name × Arg)) :
         · have : n = k := by simpa using hnk
           subst this
           simp [List.lookup, hku, hk]
-    · have hk' : inParamDict all k = false := by simpa using hk
+    · have hk' : inParamDict sn all k = false := by simpa using hk
       simp only [hk', Bool.not_false, if_true]
       cases hn : s.keysUsed.lookup n with
       | some b => simp
       | none =>
-        by_cases hin : inParamDict all n = true
+        by_cases hin : inParamDict sn all n = true
         · have hne : (n == k) = false := by
             cases hnk : n == k
             · rfl
             · have : n = k := by simpa using hnk
               subst this; rw [hin] at hk'; cases hk'
           simp [List.lookup, hne, hin]
-        · have hin' : inParamDict all n = false := by simpa using hin
+        · have hin' : inParamDict sn all n = false := by simpa using hin
           simp [hin']
 
 theorem dictSet_fresh (d : List (Name × Arg)) (k : Name) (v : Arg) (h : k ∉ d.map Prod.fst) :
@@ -136,10 +136,10 @@ theorem dictSet_fresh (d : List (Name × Arg)) (k : Name) (v : Arg) (h : k ∉ d
 
 /-- `non_matching_keys` after all keywords went through the loop: the keywords that name no
 parameter, in call order -/
-theorem drain_nonMatching (all : List Param) (kws : List (Name × Arg)) :
+theorem drain_nonMatching (sn : Bool) (all : List Param) (kws : List (Name × Arg)) :
     ∀ (s : St), (s.nonMatching.map Prod.fst ++ kws.map Prod.fst).Nodup →
-      (drain all s kws).nonMatching =
-        s.nonMatching ++ kws.filter fun (k, _) => !inParamDict all k := by
+      (drain sn all s kws).nonMatching =
+        s.nonMatching ++ kws.filter fun (k, _) => !inParamDict sn all k := by
   induction kws with
   | nil => intro s _; simp [drain]
   | cons x kws ih =>
@@ -150,8 +150,8 @@ theorem drain_nonMatching (all : List Param) (kws : List (Name × Arg)) :
     simp only [List.map_cons, List.nodup_append, List.nodup_cons, List.mem_cons] at hnd'
     obtain ⟨hs, ⟨hk, hkws⟩, hdisj⟩ := hnd'
     have hknot : k ∉ s.nonMatching.map Prod.fst := fun hm => hdisj k hm k (Or.inl rfl) rfl
-    by_cases hin : inParamDict all k = true
-    · have hnm : (keyStep all s k a).nonMatching = s.nonMatching := by
+    by_cases hin : inParamDict sn all k = true
+    · have hnm : (keyStep sn all s k a).nonMatching = s.nonMatching := by
         unfold keyStep; simp only [hin]; simp only [Bool.not_true, Bool.false_eq_true, if_false]
         split <;> rfl
       rw [ih, hnm]
@@ -159,8 +159,8 @@ theorem drain_nonMatching (all : List Param) (kws : List (Name × Arg)) :
       · rw [hnm]
         simp only [List.nodup_append]
         exact ⟨hs, hkws, fun x hx y hy => hdisj x hx y (Or.inr hy)⟩
-    · have hin' : inParamDict all k = false := by simpa using hin
-      have hnm : (keyStep all s k a).nonMatching = s.nonMatching ++ [(k, a)] := by
+    · have hin' : inParamDict sn all k = false := by simpa using hin
+      have hnm : (keyStep sn all s k a).nonMatching = s.nonMatching ++ [(k, a)] := by
         unfold keyStep; simp only [hin', Bool.not_false, if_true]
         exact dictSet_fresh _ _ _ hknot
       rw [ih, hnm]
@@ -337,63 +337,56 @@ theorem body_arg_star (p : Param) (a : Arg) (it : It) (s : St)
       ((starLoop true it [a]).2, finish cfgRef p (.tuple (starLoop true it [a]).1) s) := by
   simp [bodyJ, cfgRef, Kind.starCount, hk, hl]
 
-theorem mem_inParamDict {all : List Param} {p : Param} (h : p ∈ all) : inParamDict all p.name = true := by
+theorem starCount_zero (p : Param) : (p.kind.starCount == 0) = p.byKeyword := by
+  cases hk : p.kind <;> simp [Kind.starCount, Param.byKeyword, hk]
+
+theorem mem_inParamDict {all : List Param} {p : Param} (h : p ∈ all) (hb : p.byKeyword = true) :
+    inParamDict false all p.name = true := by
   simp only [inParamDict, List.any_eq_true]
-  exact ⟨p, h, by simp⟩
+  exact ⟨p, h, by simp [starCount_zero, hb]⟩
 
-theorem avoid_key {all : List Param} {kws : List (Name × Arg)}
-    (havoid : kwsAvoidStarNames all kws = true) {k : Name} {a : Arg} (hmem : (k, a) ∈ kws)
-    {q : Param} (hq : q ∈ all) (hqk : q.name = k) : q.byKeyword = true := by
-  simp only [kwsAvoidStarNames, List.all_eq_true] at havoid
-  have := havoid (k, a) hmem
-  simp only [Bool.not_eq_true', List.any_eq_false] at this
-  have h2 := this q hq
-  cases hb : q.byKeyword
-  · simp [hb, hqk] at h2
-  · rfl
+theorem namesNodup_mem {all : List Param} (hnd : namesNodup (all.map (·.name)) = true)
+    {p q : Param} (hp : p ∈ all) (hq : q ∈ all) (h : p.name = q.name) : p = q := by
+  induction all with
+  | nil => cases hp
+  | cons x all ih =>
+    obtain ⟨hx, hnd'⟩ := namesNodup_cons (by simpa using hnd)
+    rcases List.mem_cons.mp hp with hp1 | hp1 <;> rcases List.mem_cons.mp hq with hq1 | hq1
+    · rw [hp1, hq1]
+    · rw [hp1] at h; exact absurd (h ▸ List.mem_map.mpr ⟨q, hq1, rfl⟩) hx
+    · rw [hq1] at h; exact absurd (h ▸ List.mem_map.mpr ⟨p, hp1, rfl⟩) hx
+    · exact ih hnd' hp1 hq1
 
-theorem avoid_lookup {all : List Param} {kws : List (Name × Arg)}
-    (havoid : kwsAvoidStarNames all kws = true) {q : Param} (hq : q ∈ all)
-    (hb : q.byKeyword = false) : kws.lookup q.name = none := by
-  cases hl : kws.lookup q.name with
-  | none => rfl
-  | some a =>
-    exfalso
-    have hmem : (q.name, a) ∈ kws := by
-      clear havoid
-      induction kws with
-      | nil => simp [List.lookup] at hl
-      | cons x kws ih =>
-        obtain ⟨k', a'⟩ := x
-        simp only [List.lookup] at hl
-        cases hqk : q.name == k' <;> simp only [hqk] at hl
-        · exact List.mem_cons_of_mem _ (ih hl)
-        · have : q.name = k' := by simpa using hqk
-          cases hl; rw [this]; exact List.mem_cons_self ..
-    rw [avoid_key havoid hmem hq rfl] at hb; cases hb
+/-- the name of `*args` / `**kwargs` is not in `param_dict` (repaired source) -/
+theorem star_not_inParamDict {all : List Param} (hnd : namesNodup (all.map (·.name)) = true)
+    {q : Param} (hq : q ∈ all) (hb : q.byKeyword = false) : inParamDict false all q.name = false := by
+  simp only [inParamDict, List.any_eq_false, Bool.false_or, Bool.and_eq_true, not_and]
+  intro p hp hpn
+  have : p = q := namesNodup_mem hnd hp hq (by simpa using hpn)
+  subst this
+  simp [starCount_zero, hb]
 
-theorem extras_eq {all : List Param} {kws : List (Name × Arg)}
-    (havoid : kwsAvoidStarNames all kws = true) :
-    (kws.filter fun (k, _) => !inParamDict all k) = extraKws all kws := by
+/-- what jedi collects in `non_matching_keys` (repaired source) is what CPython puts into
+`**kwargs` -/
+theorem extras_eq (all : List Param) (kws : List (Name × Arg)) :
+    (kws.filter fun (k, _) => !inParamDict false all k) = extraKws all kws := by
   unfold extraKws
   apply List.filter_congr
-  rintro ⟨k, a⟩ hmem
-  have hiff : inParamDict all k = namesKwParam all k := by
-    rw [Bool.eq_iff_iff]
-    simp only [inParamDict, namesKwParam, List.any_eq_true, Bool.and_eq_true]
-    constructor
-    · rintro ⟨q, hq, hqk⟩
-      exact ⟨q, hq, avoid_key havoid hmem hq (by simpa using hqk), hqk⟩
-    · rintro ⟨q, hq, _, hqk⟩
-      exact ⟨q, hq, hqk⟩
+  rintro ⟨k, a⟩ _
+  have hiff : inParamDict false all k = namesKwParam all k := by
+    simp only [inParamDict, namesKwParam, Bool.false_or, starCount_zero]
+    congr 1
+    funext p
+    exact Bool.and_comm _ _
   simp only [hiff]
 
 theorem loop_at_keys (all : List Param) (kws : List (Name × Arg)) (p : Param) (ps : List Param) (s : St) :
-    loopJ cfgRef all (p :: ps) (kwIt kws) s = loopJ cfgRef all (p :: ps) [] (drain all s kws) := by
+    loopJ cfgRef all (p :: ps) (kwIt kws) s = loopJ cfgRef all (p :: ps) [] (drain false all s kws) := by
   simp only [loopJ, stepJ_keys, stepJ_nil]
+  rfl
 
 theorem loop_main (all : List Param) (kws : List (Name × Arg))
-    (havoid : kwsAvoidStarNames all kws = true) (hkn : (kws.map Prod.fst).Nodup) (ps : List Param) :
+    (hnda : namesNodup (all.map (·.name)) = true) (hkn : (kws.map Prod.fst).Nodup) (ps : List Param) :
     ∀ (pos : List Arg) (s : St) (b sd : Bool), wfOrder b sd ps = true →
       namesNodup (ps.map (·.name)) = true → (∀ p ∈ ps, p ∈ all) →
       (hasStar ps = false → pos.length ≤ nPos ps) →
@@ -409,15 +402,14 @@ theorem loop_main (all : List Param) (kws : List (Name × Arg))
       rw [callArgs_nil, loop_at_keys, loop_drained all kws (extraKws all kws) (p :: ps) _ b sd hwf hnd,
         drain_result]
       · intro q hq
-        rw [drain_lookup, hfresh q hq, mem_inParamDict (hall q hq)]
-        simp only [if_true]
+        rw [drain_lookup, hfresh q hq]
         unfold expectKU
         cases hb : q.byKeyword
-        · simp [avoid_lookup havoid (hall q hq) hb]
-        · simp
+        · simp [star_not_inParamDict hnda (hall q hq) hb]
+        · simp [mem_inParamDict (hall q hq) hb]
       · intro _
-        rw [drain_nonMatching all kws s (by simpa [hnm] using hkn), hnm, List.nil_append,
-          extras_eq havoid]
+        rw [drain_nonMatching false all kws s (by simpa [hnm] using hkn), hnm, List.nil_append,
+          extras_eq]
     | cons a pos =>
       obtain ⟨hpn, hnd'⟩ := namesNodup_cons (by simpa using hnd)
       have hlp := hfresh p (List.mem_cons_self ..)
@@ -469,8 +461,8 @@ theorem loop_main (all : List Param) (kws : List (Name × Arg))
 
 /-! ### shape of the result, for every source configuration and every argument list -/
 
-theorem whileKeys_result (all : List Param) (it : It) :
-    ∀ (cur : Option (Option Name × Arg)) (s : St), (whileKeys all cur it s).2.2.result = s.result := by
+theorem whileKeys_result (sn : Bool) (all : List Param) (it : It) :
+    ∀ (cur : Option (Option Name × Arg)) (s : St), (whileKeys sn all cur it s).2.2.result = s.result := by
   induction it with
   | nil =>
     intro cur s
@@ -505,8 +497,9 @@ theorem bodyJ_result (cfg : Cfg) (p : Param) (arg : Option Arg) (it : It) (s : S
 theorem stepJ_result (cfg : Cfg) (all : List Param) (p : Param) (it : It) (s : St) :
     ∃ b, (stepJ cfg all p it s).2.result = s.result ++ [(p.name, b)] := by
   unfold stepJ
-  obtain ⟨b, hb⟩ := bodyJ_result cfg p (whileKeys all (pop it).1 (pop it).2 s).1
-    (whileKeys all (pop it).1 (pop it).2 s).2.1 (whileKeys all (pop it).1 (pop it).2 s).2.2
+  obtain ⟨b, hb⟩ := bodyJ_result cfg p (whileKeys cfg.starNamesInParamDict all (pop it).1 (pop it).2 s).1
+    (whileKeys cfg.starNamesInParamDict all (pop it).1 (pop it).2 s).2.1
+    (whileKeys cfg.starNamesInParamDict all (pop it).1 (pop it).2 s).2.2
   exact ⟨b, by rw [hb, whileKeys_result]⟩
 
 theorem loopJ_names (cfg : Cfg) (all : List Param) (ps : List Param) :
@@ -528,11 +521,10 @@ theorem bindJ_names (cfg : Cfg) (ps : List Param) (args : It) :
 
 theorem bindJ_eq_fill (ps : List Param) (pos : List Arg) (kws : List (Name × Arg))
     (hwf : WFSig ps = true) (hkn : (kws.map Prod.fst).Nodup)
-    (havoid : kwsAvoidStarNames ps kws = true)
     (hlen : tooManyPositional ps pos = false) :
     bindJ cfgRef ps (callArgs pos kws) = fill kws (extraKws ps kws) ps pos := by
   simp only [WFSig, Bool.and_eq_true] at hwf
-  have := loop_main ps kws havoid hkn ps pos {} true false hwf.2 hwf.1 (fun _ h => h)
+  have := loop_main ps kws hwf.1 hkn ps pos {} true false hwf.2 hwf.1 (fun _ h => h)
     (fun hs => by
       simp only [tooManyPositional, hs, Bool.not_false, Bool.true_and, decide_eq_false_iff_not,
         Nat.not_lt] at hlen
